@@ -65,7 +65,7 @@ CHECKS = {
         technique="runtime monitoring: strace log of every mutating syscall of find + before/after snapshots of the sandbox and of the directories links point to, vs a model replay of the -depth -print order on a twin copy",
         level="exploration",
         text="Sandboxes with nested directories, links to files and directories inside and outside the starting points, dangling links; state-independent expressions leaving some matched directories non-empty; follow modes -P/-H/-L; 1-2 starting points incl. a symlinked one. Successful removals in the strace log must equal the replayed ones in order, no other mutating syscall may occur, the after-snapshot must equal the twin's, and exit status/diagnostic/truth must reflect failed removals.",
-        note="Tests whose truth depends on earlier deletions (-empty, -links, -newer*) not used; runs as root (mknod for device nodes). Round 7: matched links that point at find's working directory; chains deeper than RLIMIT_NOFILE. Round 8: -follow written before or after -delete.",
+        note="Tests whose truth depends on earlier deletions (-empty, -links, -newer*) not used; runs as root (mknod for device nodes). Round 7: matched links that point at find's working directory; chains deeper than RLIMIT_NOFILE. Round 8: -follow written before or after -delete. Round 9: several of -P/-H/-L in front (the last decides).",
         ref="DESIGN.md section 4 C10"),
     "C11": dict(
         technique="runtime monitoring: (a) ill-formed-by-construction argument vectors observed for exit status, stderr, stdout, child processes (recorder log) and sandbox snapshot; (b) totality fuzzing of the real find_main under catch_unwind with a per-case watchdog (privileges dropped to uid 65534), plus the binary for non-UTF-8 arguments; pattern-bearing vectors replayed under valgrind memcheck (crash = violation, reports advisory)",
@@ -95,7 +95,7 @@ CHECKS = {
         technique="runtime monitoring: oracle-free invariants (the three forms -N/N/+N partition the files; +N/-N monotone in N) plus integer-arithmetic oracle on os.lstat records, over labelled clause triples evaluated in-process with an injected clock",
         level="exploration",
         text="About 150 files per worker: sparse files of size 0,1,2 and k*u-1,k*u,k*u+1 for every unit and k in {1,2,3,1023,1024}, 2^32/2^33/2^40/2^62 (+-1), 2^63-1; hard-link groups; chown'ed files; files with injected ages around day/minute boundaries incl. the future. Operands around every file's rounded value for each of c,w,b,none,k,M,G, 0/1/2 and 2^31..2^64-1; -links/-inum/-uid/-gid; the six time tests (trichotomy and monotonicity, oracle for ages >= 0). Quick ~450 triples x ~150 files.",
-        note="N >= 2^64 not used; negative ages judged for trichotomy and monotonicity only; the mount-point rounds need mount permission (skipped and counted otherwise). Round 8: FIFO, socket and device-node entries in the random rounds.",
+        note="N >= 2^64 only in the over-wide-operand runs (rejected, or compared as spelled); negative ages judged for trichotomy and monotonicity only; the mount-point rounds need mount permission (skipped and counted otherwise). Round 8: FIFO, socket and device-node entries in the random rounds. Round 9: operands of 2^64 and more.",
         ref="DESIGN.md section 4 C14"),
     "C15": dict(
         technique="runtime monitoring: ns-resolution integer oracle on os.lstat records with the clock injected through Dependencies::now(); timestamps set with utimensat, ctime read back and `now` placed relative to it",
